@@ -40,15 +40,55 @@ METHODS = [
 ]
 
 
-def pin_c14py() -> typing.Tuple[bool, str]:
+EXTRA_PATCHED = ['Serializer._ensure_writable']   # exists only with design_notes/C14_py_too_small_fix.patch applied
+
+
+def _dump() -> str:
     from . import shape_pin
-    return shape_pin.check_pin('c14py', [(SUPPORT, m) for m in METHODS])
+    parts = ['## %s:%s\n%s' % (SUPPORT, m, shape_pin.normalized_dump(SUPPORT, m)) for m in METHODS]
+    for m in EXTRA_PATCHED:
+        try:
+            parts.append('## %s:%s\n%s' % (SUPPORT, m, shape_pin.normalized_dump(SUPPORT, m)))
+        except KeyError:
+            pass
+    return '\n'.join(parts) + '\n'
+
+
+def pin_c14py() -> typing.Tuple[bool, str]:
+    """two accepted shapes: pins/c14py.txt (text without the capacity test: finding F-PY-SER-SILENT-DROP) and pins/c14py_patched.txt
+    (with design_notes/C14_py_too_small_fix.patch).  Gen_Pin_c14py.v defines pin_c14py_ok and says which one was seen."""
+    import os
+    from . import gen, shape_pin
+    out = os.path.join(gen.GEN_DIR, 'Gen_Pin_c14py.v')
+    head = gen.HEADER % ('%s (%d methods of Serializer / Deserializer / ZeroExtendingBuffer)' % (SUPPORT, len(METHODS)))
+    try:
+        cur = _dump()
+        shapes = {}
+        for tag in ('c14py', 'c14py_patched'):
+            f = os.path.join(shape_pin.PINS, tag + '.txt')
+            if os.path.exists(f):
+                shapes[tag] = open(f, encoding='utf-8').read()
+    except (OSError, KeyError, SyntaxError, AssertionError) as ex:
+        gen.write_if_changed(out, head + '(* shape pin failed closed: %r *)\n' % (ex,))
+        return False, 'shape pin c14py failed closed: %r' % (ex,)
+    for tag, text in shapes.items():
+        if cur == text:
+            gen.write_if_changed(out, head + 'Definition pin_c14py_ok : bool := true.\n'
+                                 'Definition pin_c14py_capacity_test_present : bool := %s.\n' % ('true' if tag == 'c14py_patched' else 'false'))
+            return True, 'ok (%s)' % tag
+    gen.write_if_changed(out, head + '(* shape of the pinned methods changed: the hand model is no longer known to describe the code *)\n')
+    return False, 'shape pin c14py: the code has neither of the shapes the hand models were written for'
 
 
 GENERATORS = {'pin_c14py': pin_c14py}
 
 if __name__ == '__main__':
+    import os
     from . import shape_pin
-    if sys.argv[1:] == ['--update']:
-        sys.exit(shape_pin.main(['--update', 'c14py'] + ['%s:%s' % (SUPPORT, m) for m in METHODS]))
+    if sys.argv[1:2] == ['--update']:
+        tag = sys.argv[2] if len(sys.argv) > 2 else 'c14py'
+        with open(os.path.join(shape_pin.PINS, tag + '.txt'), 'w', encoding='utf-8') as f:
+            f.write(_dump())
+        print('pinned', tag)
+        sys.exit(0)
     print(pin_c14py())
